@@ -1,5 +1,5 @@
 (* C20 - Optional build features change only what they document. *)
-From RS Require Import Base.Tac Base.Bytes Model.Desc Model.Decoder Model.Driver Gen.Params_gen Proofs.Crc Proofs.BuildFlags.
+From RS Require Import Base.Tac Base.Bytes Model.Desc Model.Decoder Model.Driver Gen.Params_gen Proofs.Crc Proofs.CrcBits Proofs.BuildFlags.
 Local Open Scope Z_scope.
 
 (* T1: ENABLE_DIFOP_PARSE.  For every packet history (wall clock, host clock, bytes), a driver built
@@ -54,3 +54,19 @@ Theorem C20_T6_rejecting tbl v th now host b p :
   process_msop (mk_build true p) tbl v th now host b =
   (v, fst (limit_call th now ERR_WRONGCRC32), snd (limit_call th now ERR_WRONGCRC32), false, b).
 Proof. exact (crc_rejects tbl v th now host b p). Qed.
+
+(* T7: single-bit corruptions.  (a) Flipping any one bit of any one byte of the data the CRC covers
+   (everything before the stored value, and the rolling counter) changes the computed CRC-32 - the bit
+   step is an injective GF(2)-linear map on 32-bit values, so differing running values stay different;
+   (b) flipping any one bit of the stored big-endian value changes the value read.  With T5: a packet
+   that passes the check fails it after any single-bit corruption at or after its identifier. *)
+Theorem C20_T7a_covered_bit pre b post p :
+  Forall (fun x => 0 <= x < 256) pre -> 0 <= b < 256 -> Forall (fun x => 0 <= x < 256) post -> 0 <= p < 8 ->
+  crc_bitwise (pre ++ b :: post) <> crc_bitwise (pre ++ Z.lxor b (2 ^ p) :: post).
+Proof. exact (CrcBits.crc_single_bit pre b post p). Qed.
+Print Assumptions C20_T7a_covered_bit.
+Theorem C20_T7b_stored_bit a0 a1 a2 a3 rest k p :
+  0 <= a0 < 256 -> 0 <= a1 < 256 -> 0 <= a2 < 256 -> 0 <= a3 < 256 -> 0 <= p < 8 -> (k < 4)%nat ->
+  let flip (i : nat) (x : Z) := if Nat.eqb i k then Z.lxor x (2 ^ p) else x in
+  be32 (flip 0%nat a0 :: flip 1%nat a1 :: flip 2%nat a2 :: flip 3%nat a3 :: rest) 0 <> be32 (a0 :: a1 :: a2 :: a3 :: rest) 0.
+Proof. exact (CrcBits.stored_single_bit a0 a1 a2 a3 rest k p). Qed.
